@@ -450,12 +450,44 @@ func (o *ObjectSchema) Validate(data any) error {
 }
 
 func (o *ObjectSchema) applySubObjectDefaultValues(propertyID string, property *PropertySchema, rawData map[string]any) {
-	o.applySubObjectDefaultValuesRecursive(propertyID, property, rawData, map[Object]struct{}{})
+	o.applySubObjectDefaultValuesRecursive(o, propertyID, property, rawData, map[Object]struct{}{})
+}
+
+// byValueMembersReach tells if target can be reached from the object through object members that are there whenever
+// the object is: members held by value, and members with a declared default.
+func byValueMembersReach(from Object, target Object, seen map[Object]struct{}) bool {
+	if from == target {
+		return true
+	}
+	if _, alreadySeen := seen[from]; alreadySeen {
+		return false
+	}
+	seen[from] = struct{}{}
+	for _, property := range from.Properties() {
+		if property.ReflectedType().Kind() == reflect.Pointer && property.Default() == nil {
+			continue
+		}
+		var subObject Object
+		switch property.TypeID() {
+		case TypeIDRef:
+			subObject = property.Type().(Ref).GetObject()
+		case TypeIDObject:
+			subObject = property.Type().(Object)
+		default:
+			continue
+		}
+		if byValueMembersReach(subObject, target, seen) {
+			return true
+		}
+	}
+	return false
 }
 
 // applySubObjectDefaultValuesRecursive does the work of applySubObjectDefaultValues. The visiting set holds the
-// objects on the current path so that self-referential object graphs terminate.
+// objects on the current path so that self-referential object graphs terminate. The owner is the object the
+// property belongs to.
 func (o *ObjectSchema) applySubObjectDefaultValuesRecursive(
+	owner Object,
 	propertyID string,
 	property *PropertySchema,
 	rawData map[string]any,
@@ -475,6 +507,11 @@ func (o *ObjectSchema) applySubObjectDefaultValuesRecursive(
 		return
 	}
 	if _, alreadyVisiting := visiting[subObject]; alreadyVisiting {
+		return
+	}
+	if byValueMembersReach(subObject, owner, map[Object]struct{}{}) {
+		// The member leads back to its owner (a recursive type held through a pointer field): completing it from
+		// defaults would never end, since every completed member lacks the same member again. It stays absent.
 		return
 	}
 	visiting[subObject] = struct{}{}
@@ -502,7 +539,7 @@ func (o *ObjectSchema) applySubObjectDefaultValuesRecursive(
 		}
 	}
 	for subPropertyID, subProperty := range subObject.Properties() {
-		o.applySubObjectDefaultValuesRecursive(subPropertyID, subProperty, data, visiting)
+		o.applySubObjectDefaultValuesRecursive(subObject, subPropertyID, subProperty, data, visiting)
 	}
 	if len(data) != 0 {
 		rawData[propertyID] = data
